@@ -9,7 +9,7 @@ def check():
         "C09", "C09.v",
         [dict(profile=PROFILES["events"], n_quick=300, n_thorough=5000),
          dict(builder=gridgen.event_builder, n_quick=240, n_thorough=4000)],
-        [oracles.oracle_C09, oracles.oracle_C08, oracles.oracle_shapes], TB,
+        [oracles.oracle_C09, oracles.oracle_C09_steps, oracles.oracle_C08, oracles.oracle_shapes], TB,
         "grid-aware placements (inside a step, on a boundary, +-1 ulp, +-1e-12, +-1e-9, several per step) + profile 'events' + plain runs over the 4 explicit methods, both directions; each case replayed bit-for-bit on the "
         "extracted model; the property's clauses checked on the implementation's results; non-trivial = at least 2 accepted "
         "steps; distinct = distinct case lines")
